@@ -8,7 +8,11 @@
 //! Enumeration is prefix closed: every sequence `w` of the stated domain is executed from an empty
 //! engine and the obligations are evaluated for its LAST operation (all proper prefixes of `w` are
 //! themselves members of the domain, hence "after every operation of every sequence").  Long cases
-//! (hub, seeded random walks) are checked after every step.
+//! (hub, seeded random walks) are checked after every step.  Hub cases (a centre with ~100 incident
+//! edges, then `delete_node(centre)`) exist with uniform spokes and with MIXED spokes to distinct
+//! neighbours (directed hub->X, directed X->hub, undirected created as (hub,X) / as (X,hub), a self-loop
+//! on the hub, unrelated edges between neighbours), just below / at / above the high-degree threshold
+//! (`PARALLEL_THRESHOLD = 100` incident edges) of `delete_node`.
 //!
 //! Operands are *slots*: node slot k = the k-th successfully created node of the sequence (it keeps
 //! its slot after deletion, so sequences also address deleted nodes/edges: the call must fail and
@@ -133,7 +137,10 @@ fn parse_upd(v: &Value) -> Result<Upd, String> {
 
 /// Compact JSON -> primitive operations.  Macro forms: `"times": k` on create_node / create_edge
 /// (k repetitions) and `{"op":"fan","center":c,"first":f,"count":k,"directed":b,"outward":b,"type":t}`
-/// (= k create_edge between node slot c and node slots f, f+1, ..).
+/// (= k create_edge between node slot c and node slots f, f+1, ..) and
+/// `{"op":"mixfan","center":c,"first":f,"count":k}` (= k create_edge between node slot c and the DISTINCT node slots
+/// X = f, f+1, .., spoke i of shape i mod 4: 0 directed c->X type a, 1 directed X->c type b, 2 undirected created as
+/// (c,X) type a, 3 undirected created as (X,c) type b).
 fn parse_ops(v: &Value) -> Result<Vec<Op>, String> {
     let arr = v.as_array().ok_or("ops must be an array")?;
     let mut out = vec![];
@@ -155,6 +162,14 @@ fn parse_ops(v: &Value) -> Result<Vec<Op>, String> {
                 for i in 0..k {
                     let (from, to) = if outward { (c, f + i) } else { (f + i, c) };
                     out.push(Op::CreateEdge { from, to, directed, ty: ty(o), res_to: None });
+                }
+            },
+            "mixfan" => {
+                let (c, f, k) = (us(o, "center")?, us(o, "first")?, us(o, "count")?);
+                for i in 0..k {
+                    let x = f + i;
+                    let (from, to, directed, ty) = match i % 4 { 0 => (c, x, true, 0u8), 1 => (x, c, true, 1), 2 => (c, x, false, 0), _ => (x, c, false, 1) };
+                    out.push(Op::CreateEdge { from, to, directed, ty, res_to: None });
                 }
             },
             "delete_edge" => out.push(Op::DeleteEdge { e: us(o, "e")? }),
@@ -700,6 +715,24 @@ fn hub_cases(thorough: bool) -> Vec<Value> {
             {"op": "delete_node", "n": 0},
             {"op": "create_edge", "from": 1, "to": 2, "directed": false, "type": "a"}]}));
     }
+    // mixed spokes to distinct neighbours (directed hub->X, directed X->hub, undirected created as (hub,X), undirected
+    // created as (X,hub)) + one self-loop on the hub + unrelated edges between neighbours.  Incident edges of the hub =
+    // spokes + 1: 99 (sequential branch of delete_node, just below PARALLEL_THRESHOLD = 100), 100 (the threshold
+    // itself), 101 and 129 (high-degree branch).  After delete_node(hub): a new edge between two former neighbours and
+    // delete_node of a former neighbour (its lists must hold no left-over spoke).
+    for (spokes, loop_directed) in [(98usize, true), (98, false), (99, true), (99, false), (100, true), (128, false)] {
+        v.push(json!({"check": "tail", "tail": 4, "ops": [
+            {"op": "create_node", "times": spokes + 2},
+            {"op": "mixfan", "center": 0, "first": 1, "count": spokes},
+            {"op": "create_edge", "from": 0, "to": 0, "directed": loop_directed, "type": "b"},
+            {"op": "create_edge", "from": 1, "to": 2, "directed": true, "type": "b"},
+            {"op": "create_edge", "from": 4, "to": 3, "directed": false, "type": "a"},
+            {"op": "create_edge", "from": spokes, "to": spokes + 1, "directed": true, "type": "a"},
+            {"op": "update_node", "n": 0, "kind": "set", "v": 5},
+            {"op": "delete_node", "n": 0},
+            {"op": "create_edge", "from": 1, "to": 2, "directed": false, "type": "a"},
+            {"op": "delete_node", "n": 2}]}));
+    }
     if thorough {
         // few neighbours, many parallel edges: the spokes share the neighbours' lists
         for (a, b, c, loops) in [(40usize, 30usize, 30usize, 0usize), (34, 33, 33, 3), (50, 0, 60, 1), (120, 0, 0, 0), (0, 0, 128, 2), (60, 60, 60, 5), (300, 0, 300, 0)] {
@@ -761,7 +794,7 @@ pub fn run(tier: Tier, seed: u64) -> Report {
     };
     let fam_txt = families.iter().map(|(i, l, c, k, _)| format!("create_node^{i}·w with 1<=|w|<={l}, <={c} nodes ever created{}", if *k { ", all update kinds" } else { "" })).collect::<Vec<_>>().join("; ");
     let mut rep = Report::new("c05_graph",
-        &format!("every operation sequence from the empty GraphEngine of the families [{fam_txt}] over the alphabet {{create_node, create_edge(from,to in all node slots incl. deleted ones, directed|undirected; self-loops and parallel edges included), delete_edge(any edge slot), delete_node(any node slot), update_node(set|relabel|unset), update_edge(set|unset)}}, obligations evaluated for the last operation of each sequence (prefix closed); plus, after every sequence shorter than the bound, each reserved-key operation (update_edge {{_to|_directed|_from}}, update_node {{_edges}}, create_edge with a \"_to\" property) as a final operation; plus one fixed sequence addressing never-created ids; plus hub cases (centre with 99/100/101 spokes to distinct neighbours{}) followed by delete_node(centre), the last 2-3 steps checked; C05.derived probes neighbors(type None|a|b) x directions, out/in/degree, out_degree_by_type and traverse(depths {{0,4}}{}) on every node slot of the final state{}",
+        &format!("every operation sequence from the empty GraphEngine of the families [{fam_txt}] over the alphabet {{create_node, create_edge(from,to in all node slots incl. deleted ones, directed|undirected; self-loops and parallel edges included), delete_edge(any edge slot), delete_node(any node slot), update_node(set|relabel|unset), update_edge(set|unset)}}, obligations evaluated for the last operation of each sequence (prefix closed); plus, after every sequence shorter than the bound, each reserved-key operation (update_edge {{_to|_directed|_from}}, update_node {{_edges}}, create_edge with a \"_to\" property) as a final operation; plus one fixed sequence addressing never-created ids; plus hub cases (centre with 99/100/101 spokes hub->X (or X->hub, or hub--X) to distinct neighbours; centre with 99/100/101/129 incident edges = 98/99/100/128 spokes of MIXED shape to distinct neighbours [directed hub->X, directed X->hub, undirected created as (hub,X), undirected created as (X,hub), cyclically] + one directed|undirected self-loop on the hub + unrelated edges between neighbours, i.e. just below, at and above PARALLEL_THRESHOLD=100 of delete_node{}) followed by delete_node(centre) and further operations on the former neighbours, the last 2-4 steps checked; C05.derived probes neighbors(type None|a|b) x directions, out/in/degree, out_degree_by_type and traverse(depths {{0,4}}{}) on every node slot of the final state{}",
                  if thorough { ", 100..600 parallel/self-loop spokes to 3 neighbours, mixed" } else { "" },
                  if thorough { "; {0,1,2,5} x all directions in the all-update-kinds families" } else { "" },
                  if thorough { "; plus 1500 seeded random sequences of length 40 over <= 5 nodes checked after every step (not exhaustive)" } else { "" }),
@@ -799,6 +832,7 @@ pub fn run(tier: Tier, seed: u64) -> Report {
         }
     }
     rep.sample(hub_cases(false)[1].clone());
+    rep.sample(hub_cases(false)[6].clone());
     if thorough {
         let mut rng = Rng(seed ^ 0xC05);
         for _ in 0..1500 {
